@@ -9,7 +9,8 @@
 From Coq Require Import List NArith Arith Bool String.
 From BS Require Import Base.Sexp Base.Types Base.Lit Base.Reader Gen.Tables Gen.Entities Gen.Stdlib Gen.T_C04
                        Model.Attrs Model.Heap Model.Edit Model.Build Model.Adapter Spec.Tree Spec.BuildSpec Spec.DocSpec
-                       Proofs.EditRep Proofs.AdapterProofs Proofs.AdapterCompose.
+                       Proofs.EditRep Proofs.AdapterProofs Proofs.AdapterCompose
+                       Model.Tokenizer Model.TokParse Spec.DocWrite Proofs.TokenizerBridge Proofs.TokenizerSpell.
 Import ListNotations.
 Open Scope N_scope.
 
@@ -116,6 +117,72 @@ Theorem C04_document_well_linked : forall cfg hs,
   consistent (b_st (parse cfg hs)).
 Proof. exact document_well_linked. Qed.
 Print Assumptions C04_document_well_linked.
+
+(* ---- from the TEXT, not from a recorded callback stream (sub-grammar) ----
+   Model.Tokenizer is the model of the installed html/parser.py + _markupbase.py (tied by correspondence and by the
+   pattern / source fingerprints proved in Props/C18.v); [callbacks unesc text] is the callback stream it fires,
+   [parse_string] = tokenizer, adapter, tree construction.  [write doc] writes a document of Spec.DocSpec token by token
+   (Spec/DocWrite.v); [simple_doc] is the sub-grammar covered: elements, void elements in all three spellings and
+   self-closed elements with lower-case names, script / style elements with raw text free of '<' (the tokenizer's
+   CDATA_CONTENT_ELEMENTS mode), any number of attributes with lower-case names
+   written as a bare name or name=DQ value DQ (DQ the double quote; value without DQ and without '&'; repeated names
+   allowed), non-empty text without '<' and '&' (no two pieces of text adjacent), references written with ';', comments
+   without '-', processing instructions and DOCTYPE / doctype declarations without '>', CDATA[ / cdata[ sections without ']'.
+   [unesc] stands for html.unescape; the only thing assumed of it: it returns a string without '&' unchanged.
+   PARTIAL: attribute values containing references or quoted otherwise, upper-case names, raw text containing '<', other
+   marked sections, comments containing '-' and malformed text are not covered by these two theorems (they are covered
+   by correspondence). *)
+
+(* the tokenizer fires exactly the ideal callbacks for the written text, rejects nothing, leaves nothing unconsumed *)
+Theorem C04_tokenizer_written_partial : forall unesc, (forall v, memN 38 v = false -> unesc v = v) ->
+  forall doc, simple_doc doc = true ->
+  exists its g, tokenize unesc (write doc) = (its, g) /\ flat_map it_evs its = tevs_of doc /\
+                gs_status g = Running /\ gs_rest g = [] /\ gs_cd g = None.
+Proof. exact tokenize_written. Qed.
+Print Assumptions C04_tokenizer_written_partial.
+
+(* ... so the text of every such document becomes the tree the markup describes: in the documented fold, and in the heap *)
+Theorem C04_string_tree_partial : forall unesc, (forall v, memN 38 v = false -> unesc v = v) ->
+  forall cfg doc, simple_doc doc = true -> wf_doc cfg doc = true ->
+  rejected unesc (write doc) = false /\
+  spec_run (a_b cfg) (adapted cfg (callbacks unesc (write doc))) = flat (a_b cfg) (expect cfg doc) /\
+  heap_is (parse_string cfg unesc (write doc)) (flat (a_b cfg) (expect cfg doc)).
+Proof. exact string_tree. Qed.
+Print Assumptions C04_string_tree_partial.
+
+(* The same, token by token and with NOTHING assumed of html.unescape (the form a round-trip argument — C05 — can use for
+   rendered output): a text that is a concatenation of self-delimiting tokens ([tok_ok]: the loop body of goahead consumes
+   exactly the token and fires exactly its callbacks, whatever follows) with no two pieces of text adjacent is tokenized
+   token by token; start and self-closing tags with double-quoted attribute values (any value without the double quote,
+   references included) are such tokens, the callback carrying html.unescape of each value; so are end tags, references
+   written with ';', comments without '-', processing instructions, DOCTYPE declarations and CDATA sections as above. *)
+Theorem C04_tokenizer_token_lists : forall unesc toks, Forall (tok_ok unesc) toks -> no_adj_text toks = true ->
+  exists its g, tokenize unesc (srcs toks) = (its, g) /\ flat_map it_evs its = flat_map tok_evs toks /\
+                gs_status g = Running /\ gs_rest g = [] /\ gs_cd g = None.
+Proof. exact tokenize_toks. Qed.
+Print Assumptions C04_tokenizer_token_lists.
+Theorem C04_start_tag_token : forall unesc n a, name_ok n -> quoted_attrs a = true ->
+  tok_ok unesc (WCons (w_start n a) [TStart n (unesc_attrs unesc a)]) /\
+  tok_ok unesc (WCons (w_self n a) [TStartEnd n (unesc_attrs unesc a)]) /\
+  tok_ok unesc (WCons (w_end n) [TEnd n]).
+Proof.
+  intros unesc n a Hn Ha. split; [exact (tok_ok_start_gen unesc n a Hn Ha)|].
+  split; [exact (tok_ok_self_gen unesc n a Hn Ha)|exact (tok_ok_end unesc n Hn)].
+Qed.
+Print Assumptions C04_start_tag_token.
+
+(* ... and the tags of the RENDERING (Model.Reparse.spell, what decode() writes: C05) are spelled exactly like that, so a
+   rendered start tag, empty-element tag (slash "/") and end tag with a lower-case name other than script / style and
+   attribute values that came out double-quoted are tokens of this kind *)
+Theorem C04_rendered_tags_are_tokens : forall unesc n a, name_ok n -> quoted_attrs a = true ->
+  tok_ok unesc (WCons (Reparse.spell (Reparse.TOpen n a)) [TStart n (unesc_attrs unesc a)]) /\
+  tok_ok unesc (WCons (Reparse.spell (Reparse.TEmptyTag n a [47])) [TStartEnd n (unesc_attrs unesc a)]) /\
+  tok_ok unesc (WCons (Reparse.spell (Reparse.TClose n)) [TEnd n]).
+Proof. exact rendered_tag_tokens. Qed.
+Print Assumptions C04_rendered_tags_are_tokens.
+
+Example C04_simple_example : simple_doc simple_example = true /\ wf_doc html_cfg simple_example = true.
+Proof. exact simple_example_ok. Qed.
 
 (* ---- special strings keep exactly their content ----
    Wherever a comment, CDATA section, doctype, declaration or processing instruction stands in a document
